@@ -734,7 +734,8 @@ class ModelHist(Engine):
                   "fluents, HTN tasks / methods / subtasks, multi-agent agents / fluents / actions / goals, ActionInstance; bounded real types "
                   "with fractional bounds, per-type defaults keyed by unbounded types), ~25% of "
                   "them made faulty on purpose (incompatible value of every kind, conflicting effects of every pairing, "
-                  "duplicate names incl. names of user types, fluents and objects); ")
+                  "duplicate names incl. names of user types, fluents and objects, values too deep to print, a bulk add_objects cut short by a "
+                  "cancellation); ")
         if self.prop == "C22":
             return common + ("clone taken at 1-3 seeded points; each later operation is delivered to original and clone "
                              "(in seeded order) or to one side only. non-trivial = >= 1 rejected operation delivered to "
